@@ -206,7 +206,21 @@ int main(int argc, char** argv) {
   else if (m == "skip_if") {
     if (size > (1u << 20)) return 2; string pat((const char*)d + (off <= len ? off : 0), inr(off, size, len) ? size : 0);
     bool res = false; Exc e = run([&] { res = r.skip_if(pat.data(), pat.size()); });
-    RCHECK(e == NONE && (!res || r.where() == off + pat.size()), "skip_if");
+    // (with the cursor already beyond the end -- possible only after an explicit go() -- out_of_range is an accepted answer, as in the contract)
+    RCHECK((e == NONE || (off > len && e == OOR)) && (!res || r.where() == off + pat.size()), "skip_if %s", e == NONE ? "returned" : "threw");
+    // a pattern LONGER than what is left in the reader: must answer false (or throw) without comparing bytes beyond the end
+    // (the buffer ends at a red zone: an over-read is reported by the sanitizer)
+    for (size_t c0 : {off <= len ? off : (size_t)0, (size_t)0, len / 2}) {
+      size_t rem = len - c0;
+      for (size_t extra : {(size_t)1, (size_t)9}) {
+        string longer((const char*)d + c0, rem); longer.append(extra, 'x');
+        StringReader r3(d, len, c0); bool res3 = false;
+        Exc e3 = run([&] { res3 = r3.skip_if(longer.data(), longer.size()); });
+        RCHECK(e3 == NONE, "skip_if threw on a %zu-byte pattern with %zu bytes left and the cursor inside the data (it answers false)", longer.size(), rem);
+        RCHECK(!res3, "skip_if matched a %zu-byte pattern with only %zu bytes left", longer.size(), rem);
+        RCHECK(r3.where() == c0, "skip_if moved the cursor to %zu on a pattern longer than the remaining data", r3.where());
+      }
+    }
   }
   else if (m == "where" || m == "size" || m == "go") { r.go(size); RCHECK(r.where() == size && r.size() == len, "trivial accessors"); }
   else { fprintf(stderr, "unknown mode %s\n", m.c_str()); return 2; }
